@@ -90,7 +90,7 @@ def handle : List Sexp → Option Sexp
       let xs := emptyTag s
       let inDom := docOK xs && prefOK p && decide (WellNested s)
       let holds := decide (Reader.resolve ((flatten p xs).map normF) = some (canonX xs))
-      let inText := inDom && bodyOK (flatten p xs)
+      let inText := inDom && docTextOK (flatten p xs)
       let textHolds := match serRun SerSt.init (flatten p xs) with
         | some out => decide (Reader.read out = some (canonX xs))
         | none => false
